@@ -96,6 +96,10 @@ func probe(c *vf.Ctx, bin string) {
 		} else if d := compare(want, got); d != nil {
 			verdict = "DIFF " + d.Kind + ": " + d.Detail
 		}
+		if verdict == "AGREE" && os.Getenv("C18_PROBE_VERBOSE") == "" {
+			fmt.Printf("   AGREE (%d series, %d points)\n", len(want.Series), want.points())
+			continue
+		}
 		fmt.Printf("   %s\n   ref: %s\n   og:  %s\n", verdict, strings.Join(want.render(20), "\n        "), strings.Join(got.render(20), "\n        "))
 	}
 }
